@@ -339,4 +339,129 @@ theorem star_values (t : TableInfo) (row : List Value) (line : Bytes) (j : JoinI
     simpa using this
   · exact map_lookup_zip _ _ _ _ hjr (fun p hp => lastGet_starKey t row line j jrow h p.1 p.2 hp)
 
+/-! ### self-join: the joined table is the queried table (same name, same columns) -/
+
+/-- names of one table that do not collide: plain names, qualified names and `input` pairwise distinct -/
+def SelfOk (t : TableInfo) : Prop :=
+  (baseKeys t).Nodup ∧
+  (t.columns.map (fun m => t.name ++ "." ++ m)).Nodup ∧
+  t.columns.Nodup ∧
+  (∀ n ∈ t.columns ++ ["input"], ∀ m ∈ t.columns, n ≠ t.name ++ "." ++ m)
+
+instance (t : TableInfo) : Decidable (SelfOk t) := by unfold SelfOk; infer_instance
+
+theorem lastGet_append_right (xs ys : Binds) (n : String) (v : Value) (h : lastGet ys n = some v) :
+    lastGet (xs ++ ys) n = some v := by
+  unfold lastGet at *
+  rw [List.reverse_append, List.find?_append]
+  cases hf : ys.reverse.find? (fun p => p.1 == n) with
+  | none => rw [hf] at h; cases h
+  | some p => rw [hf] at h; simpa using h
+
+theorem lastGet_append_left (xs ys : Binds) (n : String) (h : n ∉ keysOf ys) :
+    lastGet (xs ++ ys) n = lastGet xs n := by
+  unfold lastGet
+  rw [List.reverse_append, List.find?_append]
+  have : ys.reverse.find? (fun p => p.1 == n) = none := by
+    rw [List.find?_eq_none]
+    intro p hp hpn
+    apply h
+    simp only [beq_iff_eq] at hpn
+    rw [← hpn]
+    exact List.mem_map.2 ⟨p, List.mem_reverse.1 hp, rfl⟩
+  rw [this]; rfl
+
+/-- when every plain name is already bound, the fold only appends the qualified bindings -/
+theorem jfold_all_bound (u : String) (acc l : Binds) (h : ∀ m ∈ keysOf l, m ∈ keysOf acc) :
+    jfold u acc l = acc ++ l.map (fun p => (u ++ "." ++ p.1, p.2)) := by
+  induction l generalizing acc with
+  | nil => simp [jfold]
+  | cons p rest ih =>
+    have hp : hasKey acc p.1 = true := (hasKey_iff acc p.1).2 (h p.1 (by simp [keysOf]))
+    show jfold u (jstep u acc p) rest = _
+    have hs : jstep u acc p = acc ++ [(u ++ "." ++ p.1, p.2)] := by simp [jstep, hp]
+    rw [hs, ih]
+    · simp
+    · intro m hm
+      have := h m (by simp only [keysOf, List.map_cons]; exact List.mem_cons_of_mem _ hm)
+      simp only [keysOf, List.map_append, List.mem_append]
+      exact Or.inl this
+
+theorem keysOf_columnsMapping_full (t : TableInfo) (row : List Value) (line : Bytes)
+    (hr : t.columns.length = row.length) : ∀ n ∈ t.columns, n ∈ keysOf (columnsMapping t row line) := by
+  intro n hn
+  obtain ⟨i, hi, rfl⟩ := List.getElem_of_mem hn
+  have hi' : i < row.length := hr ▸ hi
+  have hm : (t.columns[i], row[i]) ∈ t.columns.zip row := by
+    rw [List.mem_iff_getElem]
+    exact ⟨i, by simp only [List.length_zip]; omega, by simp⟩
+  exact List.mem_map.2 ⟨_, (mem_columnsMapping t row line _ _ hm).1, rfl⟩
+
+theorem joinedMapping_self (t : TableInfo) (row : List Value) (line : Bytes) (j : JoinInfo) (jrow : List Value)
+    (hname : j.joined.name = t.name) (hcols : j.joined.columns = t.columns) (hr : t.columns.length = row.length) :
+    (joinedMapping t row line j jrow).1 =
+      columnsMapping t row line ++ (t.columns.zip jrow).map (fun p => (t.name ++ "." ++ p.1, p.2)) := by
+  rw [joinedMapping_fst, hname, hcols]
+  apply jfold_all_bound
+  intro m hm
+  exact keysOf_columnsMapping_full t row line hr m ((keysOf_zip_sublist t.columns jrow).subset hm)
+
+/-- self-join: the table-qualified name addresses the JOINED row -/
+theorem lastGet_self_qualified (t : TableInfo) (row : List Value) (line : Bytes) (j : JoinInfo) (jrow : List Value)
+    (h : SelfOk t) (hname : j.joined.name = t.name) (hcols : j.joined.columns = t.columns)
+    (hr : t.columns.length = row.length) (n : String) (v : Value) (hm : (n, v) ∈ t.columns.zip jrow) :
+    lastGet (joinedMapping t row line j jrow).1 (t.name ++ "." ++ n) = some v := by
+  rw [joinedMapping_self t row line j jrow hname hcols hr]
+  apply lastGet_append_right
+  apply lastGet_of_nodup
+  · have hsub := keysOf_zip_sublist t.columns jrow
+    have : keysOf ((t.columns.zip jrow).map (fun p => (t.name ++ "." ++ p.1, p.2))) =
+        (keysOf (t.columns.zip jrow)).map (fun m => t.name ++ "." ++ m) := by
+      simp [keysOf, List.map_map, Function.comp_def]
+    rw [this]
+    exact (hsub.map _).nodup h.2.1
+  · exact List.mem_map.2 ⟨(n, v), hm, rfl⟩
+
+/-- self-join: a plain name (and `input`) addresses the QUERIED row -/
+theorem lastGet_self_plain (t : TableInfo) (row : List Value) (line : Bytes) (j : JoinInfo) (jrow : List Value)
+    (h : SelfOk t) (hname : j.joined.name = t.name) (hcols : j.joined.columns = t.columns)
+    (hr : t.columns.length = row.length) :
+    (∀ n w, (n, w) ∈ t.columns.zip row → lastGet (joinedMapping t row line j jrow).1 n = some w) ∧
+    lastGet (joinedMapping t row line j jrow).1 "input" = some (.text line) := by
+  rw [joinedMapping_self t row line j jrow hname hcols hr]
+  have hnd : (keysOf (columnsMapping t row line)).Nodup := (keysOf_columnsMapping_sub t row line).nodup h.1
+  have hnot : ∀ n ∈ t.columns ++ ["input"],
+      n ∉ keysOf ((t.columns.zip jrow).map (fun p => (t.name ++ "." ++ p.1, p.2))) := by
+    intro n hn hmem
+    simp only [keysOf, List.map_map, List.mem_map, Function.comp] at hmem
+    obtain ⟨p, hp, hpn⟩ := hmem
+    exact h.2.2.2 n hn p.1 (List.of_mem_zip (a := p.1) (b := p.2) hp).1 hpn.symm
+  constructor
+  · intro n w hm
+    rw [lastGet_append_left _ _ _ (hnot n (List.mem_append_left _ (List.of_mem_zip hm).1))]
+    exact lastGet_of_nodup _ _ _ hnd (mem_columnsMapping t row line n w hm).1
+  · rw [lastGet_append_left _ _ _ (hnot "input" (by simp))]
+    exact lastGet_of_nodup _ _ _ hnd (input_mem_columnsMapping t row line)
+
+/-- self-join: `*` = the queried row's values under the plain names, then the joined row's under the qualified names -/
+theorem star_values_self (t : TableInfo) (row : List Value) (line : Bytes) (j : JoinInfo) (jrow : List Value)
+    (h : SelfOk t) (hname : j.joined.name = t.name) (hcols : j.joined.columns = t.columns)
+    (hr : t.columns.length = row.length) (hjr : t.columns.length = jrow.length) :
+    (joinedMapping t row line j jrow).2 = t.columns ++ t.columns.map (fun n => t.name ++ "." ++ n) ∧
+    (joinedMapping t row line j jrow).2.map (lastGet (joinedMapping t row line j jrow).1) = (row ++ jrow).map some := by
+  have hk : (joinedMapping t row line j jrow).2 = t.columns ++ t.columns.map (fun n => t.name ++ "." ++ n) := by
+    rw [joinedMapping_snd, hcols]
+    congr 1
+    apply List.map_congr_left
+    intro n hn
+    simp [starKey, hname, hn]
+  refine ⟨hk, ?_⟩
+  rw [hk, List.map_append, List.map_append]
+  congr 1
+  · have := map_lookup_zip (lastGet (joinedMapping t row line j jrow).1) id t.columns row hr
+      (fun p hp => (lastGet_self_plain t row line j jrow h hname hcols hr).1 p.1 p.2 hp)
+    simpa using this
+  · exact map_lookup_zip _ _ _ _ hjr
+      (fun p hp => lastGet_self_qualified t row line j jrow h hname hcols hr p.1 p.2 hp)
+
 end Sqlgrep
